@@ -126,7 +126,13 @@ def run_http(spec, plan, want_fp=False, workdir=None):
     first_piece = []
     rec_info = None
     try:
-        pool = ConnectionPool(resolver=FakeResolver())
+        if spec.get('timeout'):
+            import functools
+            from wpull.network.connection import Connection
+            pool = ConnectionPool(resolver=FakeResolver(), connection_factory=functools.partial(
+                Connection, timeout=spec['timeout']))
+        else:
+            pool = ConnectionPool(resolver=FakeResolver())
         ka = spec.get('keep_alive', True)
         il = spec.get('ignore_length', False)
 
@@ -205,6 +211,11 @@ def run_http(spec, plan, want_fp=False, workdir=None):
                 break
             # quiescent, client waiting
             pend = [c for c in net.conns if c.outbox and not c.client_closed]
+            stall = plan.get('stall_after')
+            if stall is not None and fed >= stall:
+                # the server falls silent here (connection stays open): only the client's
+                # own timers can make progress
+                pend = []
             if pend:
                 c = pend[0]
                 if pieces is not None:
@@ -219,6 +230,8 @@ def run_http(spec, plan, want_fp=False, workdir=None):
                         if fed < cut < fed + k:
                             k = cut - fed
                             break
+                    if stall is not None:
+                        k = min(k, stall - fed)
                 c.deliver(k)
                 fed += k
                 npieces += 1
@@ -228,6 +241,8 @@ def run_http(spec, plan, want_fp=False, workdir=None):
                 continue
             eofs = [c for c in net.conns if c.want_eof and not c.eof_sent
                     and not c.client_closed]
+            if stall is not None and fed >= stall:
+                eofs = []
             if eofs:
                 if pieces is not None and not pieces and plan.get('stop_before_eof'):
                     result = 'stopped'
